@@ -407,6 +407,17 @@ Theorem C06_fixpoint_full_guarded_partial : forall T O, tables_ok T = true ->
 Proof. exact fixpoint_full_guarded. Qed.
 Print Assumptions C06_fixpoint_full_guarded_partial.
 
+(* ... and the minimal-quoting fixed point, "whenever no decoded component contains a '%'", in one statement
+   (fx_guard_min: no '%' in path segments, query parts and fragment; no host, or a name/IPv4 host written
+   as it is that decodes to itself) *)
+Theorem C06_fixpoint_min_guarded_partial : forall T O, tables_ok T = true -> delims_ok T = true ->
+  let nfc := o_nfc O in
+  nfc [] = [] -> (forall x, nfc (nfc x) = nfc x) -> (forall x, nfc x = [] -> x = []) ->
+  forall t u, url_init T O t = MOk u -> fx_guard_min T O u = true ->
+  forall m u1, to_text T O false u = MOk m -> url_init T O m = MOk u1 -> to_text T O false u1 = MOk m.
+Proof. exact fixpoint_min_guarded. Qed.
+Print Assumptions C06_fixpoint_min_guarded_partial.
+
 Example C06_ex_guard :
   map (fun t => match url_init gen_tables id_oracles t with MOk u => fx_guard gen_tables id_oracles u | _ => false end)
       [Tx "http://u:p@h.com:8080/a%20b?k=v#f"; Tx "//h/p"; Tx "mailto:a@b"; Tx "../x?q"; Tx "urn:a:b"; Tx "/abs#f";
